@@ -5,7 +5,7 @@
    over the chunk writer: `write_all_loop`), a flush leaves nothing behind, the drop publishes the
    rest and ends the body. The DEFLATE/gzip bit stream itself is flate2/miniz_oxide's: it enters as
    the stated contract `codec_ok` and is checked on every run by an independent inflater. *)
-From HS Require Import Lib.Base Model.Chunker Proofs.ChunkerP.
+From HS Require Import Lib.Base Model.Chunker Model.GzWriter Proofs.ChunkerP Proofs.GzP.
 
 (* one emission of the encoder pushed through the chunk writer: all of it is accepted, in order,
    whatever the chunk size and the fill level; the loop terminates (each write accepts >= 1 byte) *)
@@ -56,7 +56,49 @@ Section Codec.
   Qed.
 End Codec.
 
+(* The Gzipped BodyWriter itself (Model/GzWriter.v: src/gzip.rs over an abstract encoder). For EVERY
+   encoder -- the functions that say what write, flush and finish emit are arbitrary --, every chunk
+   size and every interleaving of consumer polls: while the session is alive every write and flush
+   succeeds; what the encoder emitted is, in order and once, what was delivered, is queued or is
+   buffered; after a flush nothing is held back in the writer ... *)
+Theorem c09_gz_live : forall enc enc_write enc_flush enc_finish ops s e, Good s -> Live s -> Forall session_op ops ->
+  let '(sf, gf, rs, ems) := grun enc enc_write enc_flush enc_finish s (GGz enc e) ops in
+  Good sf /\ Live sf /\ c_cap sf = c_cap s /\
+  Forall2 (fun o p => succeeded o (fst p)) ops rs /\
+  (exists ef, gf = GGz enc ef /\ forall rest, session enc enc_write enc_flush enc_finish e (ops ++ rest) = ems ++ session enc enc_write enc_flush enc_finish ef rest) /\
+  pending s ++ c_buf s ++ ems = del_total rs ++ pending sf ++ c_buf sf /\
+  (match rev ops with OFlush :: _ => c_buf sf = [] | _ => True end).
+Proof. exact gz_live_run. Qed.
+
+(* ... and when the writer is dropped -- after any writes and flushes, or none at all -- the finish
+   emission is pushed exactly once, so that the client, draining the body, receives exactly
+   `session e0 ops`, the encoder's own output for that sequence of operations, and then the clean end.
+   (With flate2's contract for `session` -- one gzip member of the bytes written; decodable up to each
+   sync flush -- these are the two clauses of the property; that contract is what the inflater checks.) *)
+Theorem c09_gz_session : forall enc enc_write enc_flush enc_finish cap e0 body, 0 < cap -> Forall session_op body ->
+  let '(s, g, rs, ems) := grun enc enc_write enc_flush enc_finish (cinit cap) (GGz enc e0) (body ++ [ODropWriter]) in
+  ems = session enc enc_write enc_flush enc_finish e0 (body ++ [ODropWriter]) /\
+  exists q rb, c_st s = SOk q rb true /\ c_w s = WGone /\ Good s /\
+    del_total rs ++ concat q = ems /\
+    let '(sf, rs2) := crun s (repeat (OPoll 0) (S (length q))) in
+    c_st sf = SFused /\ del_total rs ++ del_total rs2 = session enc enc_write enc_flush enc_finish e0 (body ++ [ODropWriter]) /\
+    exists rs0, rs2 = rs0 ++ [(RPoll (Some None), [])].
+Proof. exact gz_session. Qed.
+
+(* non-vacuity with a toy encoder (header "H", each byte doubled, flush mark "F", trailer "T"):
+   a session with no write at all still delivers header-less finish output -- here "T" *)
+Example c09_gz_instance :
+  let ew := fun (e : bool) (d : bytes) => (true, (if e then [] else [72]) ++ flat_map (fun b => [b; b]) d, lenN d) in
+  let ef := fun (e : bool) => (true, (if e then [] else [72]) ++ [70]) in
+  let fin := fun (e : bool) => (if e then [] else [72]) ++ [84] in
+  (let '(_, _, rs, _) := grun bool ew ef fin (cinit 2) (GGz bool false) [OWrite [1]; OFlush; OPoll 0; OPoll 0; ODropWriter; OPoll 0; OPoll 0] in del_total rs)
+  = [72; 1; 1; 70; 84] /\
+  (let '(_, _, rs, _) := grun bool ew ef fin (cinit 2) (GGz bool false) [ODropWriter; OPoll 0] in del_total rs) = [72; 84].
+Proof. vm_compute. split; reflexivity. Qed.
+
 Print Assumptions c09_push_all.
 Print Assumptions c09_transport.
 Print Assumptions c09_member.
 Print Assumptions c09_flush_decodable.
+Print Assumptions c09_gz_live.
+Print Assumptions c09_gz_session.
